@@ -18,7 +18,7 @@ BAD = ("badcall", "ReportTrace")
 HEAP, MALLOC, NEW, VIRTUAL = 0, 1, 2, 3
 PAGE = 4096
 # how many bytes before/behind a node the probes reach in each configuration (coverage intent only)
-FENCE_BYTES = {"base": 0, "dbg": 16, "f16": 16}
+FENCE_BYTES = {"rel": 0, "base": 0, "dbg": 16, "f16": 16}
 VALUES = [0x00, 0xFC, 0xFE]      # three byte values different from the fence pattern 0xFD
 FENCE_PATTERN = 0xFD
 ALIGNS = [1, 2, 4, 8, 16]
@@ -164,6 +164,21 @@ def lowlevel_jobs(prop, tier, seed, cfgs=("base", "dbg", "f16")):
         hist = [history(cfg, r, 60) for _ in range(10 * s)] + [history(cfg, r, 200, with_probes=False) for _ in range(2 * s)]
         J.append(Job(cfg, LOW[0], LOW[1], hist, "hist"))
         J.append(Job(cfg, LOW[0], LOW[1], [leak_exec(r) for _ in range(12 * s)], "leak"))
+    return J
+
+
+def history_jobs(prop, tier, seed, cfgs=("rel", "base", "dbg"), leak_only=False):
+    """random allocate/deallocate histories over heap/malloc/new/virtual_memory_allocator and the
+    leak-at-exit scenarios, for the properties whose guards FenceTrace carries besides C17 (C01, C02, C05, C15)"""
+    rng = random.Random(seed * 1000003 + 170 + int(prop[1:]))
+    s = 1 if tier == "quick" else 8
+    J = []
+    for cfg in cfgs:
+        r = random.Random(rng.random())
+        if not leak_only:
+            hist = [history(cfg, r, 60, with_probes=False) for _ in range(8 * s)]
+            J.append(Job(cfg, LOW[0], LOW[1], hist, "lowhist"))
+        J.append(Job(cfg, LOW[0], LOW[1], [leak_exec(r) for _ in range(10 * s)], "lowleak"))
     return J
 
 
